@@ -10,11 +10,11 @@ from hypothesis.stateful import RuleBasedStateMachine, initialize, rule
 from vmm import util
 
 ID = 'C08'
-RULE = ('RuleBasedStateMachine histories over {set x(i), set y(i) (clears x), clear x, read q} on one TBRMMDiagnostics '
+RULE = ('RuleBasedStateMachine histories over {set x(i), set y(i) (clears x) - from the pool or from a work buffer the caller overwrites right after the assignment -, clear x, read q} on one TBRMMDiagnostics '
         'built from a drawn parameter object and a pool of 6 series (two highly correlated, one noise, one trending, one '
         'with a level shift in the last n_test points, one constant); q in {corr, required_impact, pretestfit, bbtest, '
         'dwtest, aatest, corr_test, tests_ok, tbrfit, x, y}; every read is compared with the same read on a fresh object '
-        'holding the same current series; teardown re-reads every quantity. Non-trivial = history with read(q), then a '
+        'holding the same current series; a second diagnostics object with its own series lives alongside and is assigned / read in between (its answers are checked the same way); teardown re-reads every quantity. Non-trivial = history with read(q), then a '
         'write, then read(q) again for a cached q; distinct by spec hash (pool + op sequence).')
 BUDGET = {'quick': 1920, 'thorough': 16000}
 FLOOR = {'quick': 150, 'thorough': 3000}
@@ -64,6 +64,12 @@ class Runner:
     self.yi = spec['y0']
     self.xi = None
     self.real = self.D(self.pool[self.yi], self.par)
+    # a second, independent diagnostics object alive at the same time (own series, own parameter object)
+    self.oyi, self.oxi = (spec['y0'] + 1) % 5, (spec['y0'] + 2) % 5
+    self.other = self.D(self.pools[0][self.oyi], tbrmmdesignparameters.TBRMMDesignParameters(**spec['params']))
+    self.other.x = self.pools[0][self.oxi]
+    self.other_used = False
+    self.buffers = False
     self.viol = []
     self.read_before_write = set()
     self.written_after = set()
@@ -106,14 +112,28 @@ class Runner:
     kind = op[0]
     if kind == 'set_x':
       self.xi = op[1]
-      self.real.x = self.pool[self.xi]
+      if len(op) > 2 and op[2] == 'buf':
+        # the caller hands over a work buffer and overwrites it afterwards: the object keeps the values it was given
+        buf = self.pool[self.xi].copy()
+        self.real.x = buf
+        buf *= 3.0
+        buf[::2] = -1.0
+        self.buffers = True
+      else:
+        self.real.x = self.pool[self.xi]
       self._wrote()
     elif kind == 'set_y':
       self.yi = op[1]
       self.xi = None
       self.which = op[2] if len(op) > 2 else 0
       self.pool = self.pools[self.which]
-      self.real.y = self.pool[self.yi]
+      if len(op) > 3 and op[3] == 'buf':
+        buf = self.pool[self.yi].copy()
+        self.real.y = buf
+        buf[:] = buf[::-1] * 0.5
+        self.buffers = True
+      else:
+        self.real.y = self.pool[self.yi]
       self._wrote()
     elif kind in ('bad_x', 'bad_y'):
       # an assignment the contract rejects (wrong length / fewer than 3 points): ValueError, object state unchanged
@@ -132,6 +152,29 @@ class Runner:
       self.xi = None
       self.real.x = None
       self._wrote()
+    elif kind == 'other':
+      # the bystander object is re-assigned and / or read; its answers are checked like those of the main object
+      self.other_used = True
+      if op[1] == 'set_x':
+        self.oxi = op[2] % 5
+        self.other.x = self.pools[0][self.oxi]
+      elif op[1] == 'set_y':
+        self.oyi, self.oxi = op[2] % 5, None
+        self.other.y = self.pools[0][self.oyi]
+      else:
+        got = self._get(self.other, op[1])
+        from matched_markets.methodology import tbrmmdesignparameters
+        f = self.D(self.pools[0][self.oyi].copy(), tbrmmdesignparameters.TBRMMDesignParameters(**self.spec['params']))
+        if self.oxi is not None:
+          f.x = self.pools[0][self.oxi].copy()
+        want = self._get(f, op[1])
+        ok = got[0] == want[0] and (util.deep_eq(got[1], want[1]) if got[0] == 'ok' else got[1] == want[1])
+        if not ok:
+          self.viol.append(('C08:second-object:%s' % op[1], {'step': len(self.spec['ops']), 'x': self.oxi, 'y': self.oyi,
+                                                             'got': util.summarize(got[1]) if got[0] == 'ok' else got[1],
+                                                             'fresh': util.summarize(want[1]) if want[0] == 'ok' else want[1]}))
+        # ... and read once more with nothing constructed in between, right before the next op on the main object
+        self._get(self.other, op[1])
     elif kind == 'read':
       q = op[1]
       self.reads += 1
@@ -173,6 +216,10 @@ class Runner:
            'writes:%s' % ('0' if not self.writes else '1-3' if self.writes <= 3 else '>3')]
     if self.nt:
       cls.append('read-write-read')
+    if self.other_used:
+      cls.append('second-live-object')
+    if self.buffers:
+      cls.append('caller-overwrote-its-buffer')
     if self.n - self.spec['params']['n_test'] < 3:
       cls.append('aatest-undefined')
     if self.spec.get('n2', self.n) != self.n and any(o[0] == 'set_y' and len(o) > 2 and o[2] == 1 for o in self.spec['ops']):
@@ -231,6 +278,14 @@ def machine(tier, sink):
     def set_y(self, i, which):
       self.r.step(['set_y', i, which])
 
+    @rule(i=st.sampled_from([0, 1, 2, 3, 4, 6, 7]))
+    def set_x_from_buffer(self, i):
+      self.r.step(['set_x', i, 'buf'])
+
+    @rule(i=st.integers(0, 4), which=st.integers(0, 1))
+    def set_y_from_buffer(self, i, which):
+      self.r.step(['set_y', i, which, 'buf'])
+
     @rule(rho=st.sampled_from([0, 500, 900, 995, -900]))
     def estimate(self, rho):
       self.r.step(['estimate', rho])
@@ -244,6 +299,17 @@ def machine(tier, sink):
     def rejected_assignment(self, kind, k):
       self.r.step([kind, k])
       self._after()
+
+    @rule(q=st.sampled_from(['corr', 'required_impact', 'pretestfit', 'bbtest', 'dwtest', 'aatest', 'tests_ok']),
+          q2=st.sampled_from(['corr', 'required_impact', 'pretestfit', 'bbtest', 'dwtest', 'aatest', 'tests_ok']), same=st.booleans())
+    def read_after_second_object(self, q, q2, same):
+      self.r.step(['other', q])
+      self.r.step(['read', q if same else q2])
+      self._after()
+
+    @rule(kind=st.sampled_from(['set_x', 'set_y']), i=st.integers(0, 4))
+    def assign_second_object(self, kind, i):
+      self.r.step(['other', kind, i])
 
     @rule(q=st.sampled_from(QUANTS))
     def read(self, q):
